@@ -625,4 +625,101 @@ example : midStmt [49, 50, 51, 52, 53, 54, 55, 56] (.num 4) none (some (.str [49
     = .ok [49, 50, 51, 49, 50, 51, 52, 53] := by decide
 example : midStmt [1, 2, 3] (.num 4) (some (.num 0)) (some (.str [9])) = .ok [1, 2, 3] := by decide
 
+/-! ### overlapping FIELD variables -/
+
+theorem fieldGet_length (buf : Bytes) (off len : Nat) (h : off + len ≤ buf.length) :
+    (fieldGet buf off len).length = len := by
+  unfold fieldGet; rw [List.length_take, List.length_drop]; omega
+
+/-- writing a window of the right size keeps the record length and touches only the window -/
+theorem fieldPut_spec (buf : Bytes) (off : Nat) (new : Bytes) (h : off + new.length ≤ buf.length) :
+    (fieldPut buf off new).length = buf.length ∧
+    fieldGet (fieldPut buf off new) off new.length = new ∧
+    (fieldPut buf off new).take off = buf.take off ∧
+    (fieldPut buf off new).drop (off + new.length) = buf.drop (off + new.length) := by
+  have hl : (buf.take off).length = off := by rw [List.length_take]; omega
+  unfold fieldPut fieldGet
+  refine ⟨?_, ?_, ?_, ?_⟩
+  · simp only [List.length_append, List.length_take, List.length_drop]; omega
+  · rw [List.append_assoc, List.drop_left' hl, List.take_left' rfl]
+  · rw [List.append_assoc, List.take_left' hl]
+  · have h2 : (buf.take off ++ new).length = off + new.length := by rw [List.length_append, hl]
+    rw [List.drop_left' h2]
+
+/-- LSET / RSET between FIELD variables of one record buffer, whatever their overlap: the target
+    window receives the reference result computed from the source VALUE BEFORE the statement
+    (truncate to the target length, pad with spaces), the rest of the record is unchanged -/
+theorem lsetField_spec (buf : Bytes) (toff tlen soff slen : Nat) (h : toff + tlen ≤ buf.length) :
+    lsetField buf toff tlen soff slen false =
+      .ok (buf.take toff
+            ++ ((fieldGet buf soff slen).take tlen ++ List.replicate (tlen - (fieldGet buf soff slen).length) 32)
+            ++ buf.drop (toff + tlen)) ∧
+    lsetField buf toff tlen soff slen true =
+      .ok (buf.take toff
+            ++ (List.replicate (tlen - (fieldGet buf soff slen).length) 32 ++ (fieldGet buf soff slen).take tlen)
+            ++ buf.drop (toff + tlen)) := by
+  have ht := fieldGet_length buf toff tlen h
+  constructor
+  · have := lset_spec (fieldGet buf toff tlen) (fieldGet buf soff slen)
+    rw [ht] at this
+    simp only [lsetField, bind, Except.bind, pure, Except.pure, this.1, fieldPut, this.2]
+  · have := rset_spec (fieldGet buf toff tlen) (fieldGet buf soff slen)
+    rw [ht] at this
+    simp only [lsetField, bind, Except.bind, pure, Except.pure, this.1, fieldPut, this.2]
+
+/-- consequently the record keeps its length and the target variable its length -/
+theorem lsetField_length (buf : Bytes) (toff tlen soff slen : Nat) (right : Bool)
+    (h : toff + tlen ≤ buf.length) :
+    ∃ r, lsetField buf toff tlen soff slen right = .ok r ∧ r.length = buf.length ∧
+      (fieldGet r toff tlen).length = tlen := by
+  have hs := lsetField_spec buf toff tlen soff slen h
+  cases right
+  · refine ⟨_, hs.1, ?_⟩
+    have hl : (buf.take toff ++ ((fieldGet buf soff slen).take tlen ++
+        List.replicate (tlen - (fieldGet buf soff slen).length) 32) ++ buf.drop (toff + tlen)).length = buf.length := by
+      simp only [List.length_append, List.length_take, List.length_drop, List.length_replicate]; omega
+    exact ⟨hl, fieldGet_length _ _ _ (by rw [hl]; exact h)⟩
+  · refine ⟨_, hs.2, ?_⟩
+    have hl : (buf.take toff ++ (List.replicate (tlen - (fieldGet buf soff slen).length) 32 ++
+        (fieldGet buf soff slen).take tlen) ++ buf.drop (toff + tlen)).length = buf.length := by
+      simp only [List.length_append, List.length_take, List.length_drop, List.length_replicate]; omega
+    exact ⟨hl, fieldGet_length _ _ _ (by rw [hl]; exact h)⟩
+
+/-- MID$ statement between FIELD variables with different extents (any overlap): the window of the
+    target receives the first bytes of the source VALUE before the statement -/
+theorem midsetField_spec (buf : Bytes) (toff tlen soff slen : Nat) (st n : Int)
+    (h : toff + tlen ≤ buf.length) (hd : ¬ (soff = toff ∧ slen = tlen))
+    (h1 : 0 ≤ n ∧ n ≤ 255) (h2 : 1 ≤ st ∧ st ≤ 255) (h3 : 0 < n → st ≤ tlen) :
+    midsetField buf toff tlen soff slen (.num st) (some (.num n)) =
+      .ok (buf.take toff
+        ++ ((fieldGet buf toff tlen).take (st.toNat - 1)
+            ++ (fieldGet buf soff slen).take (midCount (fieldGet buf toff tlen) (fieldGet buf soff slen) st.toNat n.toNat)
+            ++ (fieldGet buf toff tlen).drop (st.toNat - 1 +
+                  midCount (fieldGet buf toff tlen) (fieldGet buf soff slen) st.toNat n.toNat))
+        ++ buf.drop (toff + tlen)) := by
+  have ht := fieldGet_length buf toff tlen h
+  have hne : (soff == toff && slen == tlen) = false := by
+    cases h' : (soff == toff && slen == tlen)
+    · rfl
+    · exfalso; apply hd; simpa using h'
+  have hm := (midStmt_spec (fieldGet buf toff tlen) (fieldGet buf soff slen) st n).2.2 h1 h2
+    (by rw [ht]; exact_mod_cast h3)
+  have hlen := midStmt_length (fieldGet buf toff tlen) (fieldGet buf soff slen) st.toNat n.toNat
+  rw [ht] at hlen
+  simp only [midsetField, hne, Bool.false_eq_true, if_false, bind, Except.bind, pure, Except.pure, hm, fieldPut, hlen]
+
+/-- an implementation that writes the padding before it reads a live source gives a different
+    record as soon as the source lies in the padded part of the target: `LSET R$=B$` with
+    `R$ = (0,8)`, `B$ = (4,2)` on `abcdefgh` must give `ef      `, not spaces -/
+theorem lsetFieldLive_differs :
+    lsetField [97, 98, 99, 100, 101, 102, 103, 104] 0 8 4 2 false
+      = .ok [101, 102, 32, 32, 32, 32, 32, 32] ∧
+    lsetFieldLive [97, 98, 99, 100, 101, 102, 103, 104] 0 8 4 2 false
+      = [32, 32, 32, 32, 32, 32, 32, 32] := by
+  constructor <;> decide
+
+example : midsetField [97, 98, 99, 100, 101, 102, 103, 104] 0 8 0 4 (.num 3) none
+    = .ok [97, 98, 97, 98, 99, 100, 103, 104] := by decide
+example : midsetField [97, 98, 99, 100] 0 4 0 4 (.num 2) none = .ok [97, 97, 97, 97] := by decide
+
 end PcbV.C09
